@@ -32,6 +32,9 @@ struct Conn {
 	server_panicked: bool,
 	handed_out: bool,
 	reads: u64,
+	/// the handler of this connection parks here (the scheduler waits on the shared condvar), so that a
+	/// step wakes one thread and not every parked handler
+	cv: Arc<Condvar>,
 }
 
 #[derive(Default)]
@@ -45,6 +48,7 @@ type Shared = Arc<(Mutex<World>, Condvar)>;
 pub struct SimStream {
 	id: usize,
 	w: Shared,
+	cv: Arc<Condvar>,
 }
 
 impl std::fmt::Debug for SimStream {
@@ -79,7 +83,7 @@ impl Read for SimStream {
 			c.go = false;
 			c.server_waiting = true;
 			cv.notify_all();
-			g = cv.wait(g).unwrap();
+			g = self.cv.wait(g).unwrap();
 		}
 	}
 }
@@ -290,6 +294,7 @@ impl<'a> Incoming<'a> {
 			}
 			c.go = true;
 			c.server_waiting = false;
+			c.cv.notify_all();
 			cv.notify_all();
 		}
 		self.wait_parked(conn);
@@ -306,7 +311,8 @@ impl<'a> Incoming<'a> {
 		g.conns.push(Conn::default());
 		let id = g.conns.len() - 1;
 		g.conns[id].handed_out = true;
-		(id, SimStream { id, w: self.l.w.clone() })
+		let cv = g.conns[id].cv.clone();
+		(id, SimStream { id, w: self.l.w.clone(), cv })
 	}
 
 	fn make_client(&self, conn: usize, b: &Value) -> Client {
@@ -343,6 +349,7 @@ impl<'a> Incoming<'a> {
 			c.client_reset = true;
 		}
 		c.client_closed = true;
+		c.cv.notify_all();
 		cv.notify_all();
 	}
 
